@@ -30,6 +30,7 @@ def main(argv=None):
     ap.add_argument("--determinism", action="store_true")
     ap.add_argument("--models", action="store_true")
     ap.add_argument("--sensitivity", action="store_true")
+    ap.add_argument("--specificity", action="store_true")
     ap.add_argument("--fidelity", action="store_true")
     ap.add_argument("--only")
     args = ap.parse_args(argv)
